@@ -14,11 +14,13 @@ def rand_account(rng, simple=False):
         words = list(GANACHE)
     pw = "" if (simple or rng.random() < 0.5) else rng.choice(["TREZOR", "p@ss w0rd", "\u00e9\u00e8", "x" * 40, "-dash", "\U0001f600", "--password", "a=b", "=",
                                                                 "--mnemonic=x", " lead", "trail ", "'q'", "$HOME", "%s", "\\", "a\tb", "hunter2\n", "pw\r\n", "\n", "pw\n\n", "\tpw", "pw\r"])
+    if not simple and rng.random() < 0.04:
+        pw = " ".join(words)  # the passphrase equal to the phrase
     r = rng.random()
     if simple or r < 0.3:
         sel = None
     elif r < 0.7:
-        sel = ("index", rng.choice([0, 1, 2, 7, 2**31 - 1, rng.randrange(0, 2**31), rng.randrange(0, 100), 10, 255, 256, 65535, 65536, 2**31 - 2]))
+        sel = ("index", rng.choice([0, 1, 2, 7, 2**31 - 1, rng.randrange(0, 2**31), rng.randrange(0, 100), 10, 44, 60, 255, 256, 65535, 65536, 2**31 - 2]))
     else:
         depth = rng.randint(1, 8)
         comps = [(rng.choice([0, 1, 44, 60, 2**31 - 1, rng.randrange(2**31)]), rng.random() < 0.5) for _ in range(depth)]
